@@ -101,12 +101,18 @@ Started == readPos # -1                       \* LZEncoderData::is_started
 Gated == readLimit <= writePos - KeepAfter    \* neither flushing nor finishing: full look-ahead required
 
 \* ---------------------------------------------------------------- initial state (after the constructors)
-Init ==
+InitS ==
   LET s0 == [rp |-> -1, rl |-> -1, wp |-> PresetLen, pe |-> 0]
-      s1 == IF PresetLen > 0 THEN Skip(s0, PresetLen, FALSE) ELSE s0     \* set_preset_dict: write_pos += n; skip(n)
-  IN /\ readPos = s1.rp /\ readLimit = -1 /\ writePos = s1.wp /\ pending = s1.pe /\ finishing = FALSE
-     /\ readAhead = -1 /\ uncomp = 0 /\ wpend = 0 /\ ctotal = 0
-     /\ pc = "idle" /\ left = 0 /\ base = 0 /\ total = 0 /\ emitted = 0 /\ bad = "none"
+  IN IF PresetLen > 0 THEN Skip(s0, PresetLen, FALSE) ELSE s0     \* set_preset_dict: write_pos += n; skip(n)
+Init ==
+  /\ readPos = InitS.rp /\ readLimit = -1 /\ writePos = InitS.wp /\ pending = InitS.pe /\ finishing = FALSE
+  /\ readAhead = -1 /\ uncomp = 0 /\ wpend = 0 /\ ctotal = 0
+  /\ pc = "idle" /\ left = 0 /\ base = 0 /\ total = 0 /\ emitted = 0 /\ bad = "none"
+\* back to the initial state (trace validation of concatenated runs)
+ResetAll ==
+  /\ readPos' = InitS.rp /\ readLimit' = -1 /\ writePos' = InitS.wp /\ pending' = InitS.pe /\ finishing' = FALSE
+  /\ readAhead' = -1 /\ uncomp' = 0 /\ wpend' = 0 /\ ctotal' = 0
+  /\ pc' = "idle" /\ left' = 0 /\ base' = 0 /\ total' = 0 /\ emitted' = 0 /\ bad' = "none"
 
 \* ---------------------------------------------------------------- caller
 CallWrite(n) ==
